@@ -177,10 +177,15 @@ let resp_str (r : resp) : string = match r with
 
 let state_letter = function VOk -> "O" | VDeleted -> "D" | VUpdated -> "U" | VNew -> "N"
 
+let notices : (int, string list) Hashtbl.t = Hashtbl.create 8
+let starts_with_s (s : string) (p : string) = String.length s >= String.length p && String.sub s 0 (String.length p) = p
 let node_inboxes (n : node ref) : string =
   let parts = ref [] in
   List.iteri (fun i s ->
     if s.s_inbox <> [] then begin
+      List.iter (fun m -> let m = string_of_cl m in
+        if starts_with_s m "resolve " then
+          Hashtbl.replace notices i ((try Hashtbl.find notices i with Not_found -> []) @ [m])) s.s_inbox;
       parts := Printf.sprintf "%d:[%s]" i (String.concat "|" (List.map sesc s.s_inbox)) :: !parts
     end) !n.n_sess;
   let nn = List.length !n.n_sess in
@@ -222,13 +227,36 @@ let run_node (path : string) =
     Printf.printf "C %s\n" c.id;
     let role = role_of_tok (match c.header with r :: _ -> r | [] -> "P") in
     let n = ref (init_node (cl_of_string "nun") (cl_of_string "pwd") (cl_of_string "n0:3014") (n_of_int 1000) role clock0) in
+    Hashtbl.reset notices;
     List.iter (fun op ->
       let res = match op with
+        | ["rsv"; sid; idx; value] ->
+          let sid = int_of_string sid in
+          let notes = (try Hashtbl.find notices sid with Not_found -> []) in
+          if notes = [] then "NoNotice" else begin
+            let nt = List.nth notes (int_of_string idx mod List.length notes) in
+            (* splitn(7, ' ') *)
+            let rec splitn k s = if k = 1 then [s] else
+                match String.index_opt s ' ' with
+                | None -> [s]
+                | Some i -> String.sub s 0 i :: splitn (k - 1) (String.sub s (i + 1) (String.length s - i - 1)) in
+            let t = splitn 7 nt in
+            if List.length t < 5 then "NoNotice" else begin
+              let line = Printf.sprintf "resolve %s %s %s %s %s" (List.nth t 1) (List.nth t 2) (List.nth t 4) (List.nth t 3) (unhex value) in
+              let (n', r) = step !n (nat_of_int sid) (cl_of_string line) in
+              n := n'; resp_str r end end
+        | ["http"; body] ->
+          let (n', out) = http_request !n (cl_of_string (unhex body)) in
+          n := n';
+          (match out with
+           | Some l -> "Http " ^ esc (String.concat ";" (List.map string_of_cl l))
+           | None -> "PANIC")
         | ["conn"] -> let (n', id) = connect !n in n := n'; Printf.sprintf "Conn %d" (int_of_nat id)
         | ["cmd"; sid; line] ->
           let (n', r) = step !n (nat_of_int (int_of_string sid)) (cl_of_string (unhex line)) in
           n := n'; resp_str r
         | ["disc"; sid] -> n := disconnect !n (nat_of_int (int_of_string sid)); "Left"
+        | ["flush"] -> n := flush_snapshots !n; "Flushed"
         | _ -> failwith "bad node op" in
       let inb = node_inboxes n in
       let q = node_queues n in
